@@ -1,5 +1,5 @@
 import UrcuVerif.Lfq.Inv
-/-! `Inv` is preserved by every step (one lemma per label). -/
+/-! `Inv` is preserved by every step: the simple labels. -/
 namespace UrcuVerif.Lfq
 
 /-- destructure the hypothesis, unfold the definitions -/
@@ -8,8 +8,13 @@ macro "inv_open" h:ident : tactic => `(tactic|
            e_cas, e_adv, e_help, d_hd, d_nx, d_ldn2, d_tail, fifo, gens_tl, gens_hd, hi_fresh, pre_ok, no_uaf⟩ := $h
    simp only [HoldsTl, HoldsHd, Owns, Held, abs] at *))
 
+/-- goal `Inv c <explicit state>`: one `grind` per clause -/
 macro "inv_close" : tactic => `(tactic|
-  (constructor <;> (try simp only [tick, live, HoldsTl, HoldsHd, Owns, Held, abs, upd]) <;> grind))
+  (constructor <;> (try simp only [tick, live, advPc, afterNextPc, HoldsTl, HoldsHd, Owns, Held, abs, upd]) <;> grind))
+
+/-- diagnosis: leaves the clauses `grind` cannot close -/
+macro "inv_dbg" : tactic => `(tactic|
+  (constructor <;> (try simp only [tick, live, advPc, afterNextPc, HoldsTl, HoldsHd, Owns, Held, abs, upd]) <;> (first | grind | skip)))
 
 macro "st_inj" st:ident : tactic => `(tactic|
   ((try simp only [Option.some.injEq, Prod.mk.injEq] at $st:ident); have hst := ($st).1; subst hst))
@@ -19,13 +24,6 @@ macro "inv_auto" st:ident : tactic => `(tactic|
   (simp only [step] at $st:ident
    repeat' (split at $st:ident)
    all_goals first | (simp at $st:ident; done) | (st_inj $st; inv_close)))
-
-/-- diagnosis: like `inv_auto` but leaves the clauses `grind` cannot close -/
-macro "inv_dbg" st:ident : tactic => `(tactic|
-  (simp only [step] at $st:ident
-   repeat' (split at $st:ident)
-   all_goals first | (simp at $st:ident; done) |
-     (st_inj $st; constructor <;> (try simp only [tick, live, HoldsTl, HoldsHd, Owns, Held, abs, upd]) <;> (first | grind | skip))))
 
 theorem inv_lock {c s s' t o} (h : Inv c s) (st : step c s t .lock = some (s', o)) : Inv c s' := by
   inv_open h; inv_auto st
@@ -46,7 +44,20 @@ theorem inv_ldHead {c s s' t o} (h : Inv c s) (st : step c s t .ldHead = some (s
 theorem inv_destroy {c s s' t o} (h : Inv c s) (st : step c s t .destroy = some (s', o)) : Inv c s' := by
   inv_open h; inv_auto st
 
-theorem inv_ldTailD {c s s' t o} (h : Inv c s) (st : step c s t .ldTailD = some (s', o)) : Inv c s' := by
-  inv_open h; inv_auto st
+theorem inv_ldTailDS {c s t} (h : Inv c s) (hp : s.pc t = .dLdT) : Inv c (ldTailDS s t) := by
+  inv_open h; simp only [ldTailDS]; inv_close
+
+theorem inv_casTailAdvFail {c s t} (h : Inv c s) (hp : s.pc t = .eAdv) : Inv c (casTailAdvFail s t) := by
+  inv_open h; simp only [casTailAdvFail]; inv_close
+
+theorem inv_casTailHelpFail {c s t} (h : Inv c s) (hp : s.pc t = .eHelp) : Inv c (casTailHelpFail s t) := by
+  inv_open h; simp only [casTailHelpFail]; inv_close
+
+theorem inv_casTailDFail {c s t} (h : Inv c s) (hp : s.pc t = .dHelpT) (ht : s.tail ≠ s.hd t) :
+    Inv c (casTailDFail s t) := by
+  inv_open h; simp only [casTailDFail]; inv_close
+
+theorem inv_casHeadFail {c s t} (h : Inv c s) (hp : s.pc t = .dCas) : Inv c (casHeadFail s t) := by
+  inv_open h; simp only [casHeadFail]; inv_close
 
 end UrcuVerif.Lfq
